@@ -79,3 +79,4 @@ CFG['rule'] = CFG['rule'] + ' ' + 'Additions: every second user id extends the p
 CFG['rule'] = CFG['rule'] + ' ' + 'One scenario in three starts with equal copies of some records that have to move already present on their new owner (a sender that died between the confirmation and its local delete).'
 CFG['rule'] = CFG['rule'] + ' ' + 'Node data directories contain pattern characters ([ ] * ? and a blank); node root and shard-manager root are distinct; every node lists the servers starting with itself; the harness picks its loopback ports from a window chosen by process id.'
 CFG['rule'] = CFG['rule'] + ' ' + 'Obligation StartupOrder (gen_startup_order.py): main.go calls NewNode, RegisterMetrics, Serve, Sync in this order (theorem c14_node_listens_before_it_sends); the harness starts its nodes in the same order.'
+CFG['rule'] = CFG['rule'] + ' ' + "One user pair in five has ids with a leading '.', '_', '-' or '#'."
